@@ -15,6 +15,7 @@ C->S : seeded random arrays (shape 1..6 per axis, 1-2 channels, five dtypes,
        real downscaler is judged by Trace_Downscale: oracle:Raised, OutShape,
        DType, InRange, BlockMean / Majority / Stride.
 """
+import hashlib
 import json
 
 import numpy as np
@@ -51,7 +52,6 @@ def scope_calls(ctx, calls):
     pts = sorted((json.loads(r[1]) for r in recs), key=lambda p: (p["shape"], p["data"]))
     ctx.notes["scope_points_exported"] = len(pts)
     rng = ctx.rng
-    nfac = ctx.pick(2, 3)
     for k, p in enumerate(pts):
         dtype = dd.NG_DTYPES[k % len(dd.NG_DTYPES)]
         tri = dd.concrete_triples(rng, dtype)
@@ -61,18 +61,20 @@ def scope_calls(ctx, calls):
         else:
             arr = np.array(vals, dtype=dtype).reshape(p["shape"])
         outs = dd.outside_values(dtype)
-        for f in dd.AVG_FACTORS:
-            if f == (1, 1, 1) and k % 7:
-                continue
+        small = len(p["data"]) <= ctx.pick(4, 6)
+        # every averaging triple on the small points, three sampled ones beyond
+        favg = [f for f in dd.AVG_FACTORS if f != (1, 1, 1) or k % 7 == 0] if small \
+            else rng.sample(dd.AVG_FACTORS[1:], 3)
+        for f in favg:
             add_call(ctx, calls, "scope", "average", f, rng.choice(outs), arr)
         for method in ("majority", "stride"):
-            for f in rng.sample(dd.ANY_FACTORS, nfac):
+            for f in rng.sample(dd.ANY_FACTORS, 2 if small else 1):
                 add_call(ctx, calls, "scope", method, f, None, arr)
 
 
 def random_calls(ctx, calls):
     rng = ctx.rng
-    n = ctx.pick(900, 12000)
+    n = ctx.pick(1500, 12000)
     for k in range(n):
         dtype = dd.NG_DTYPES[k % len(dd.NG_DTYPES)]
         arr = dd.random_array(rng, dtype)
@@ -146,7 +148,7 @@ def run(ctx):
         mixed, overhang = dd.block_class(rec, rec["arr"], case["method"], case["f"])
         if mixed or overhang:
             ctx.nontrivial((case["method"], tuple(case["f"]), str(rec["outside"]), case["dtype"],
-                            tuple(case["shape"]), rec["arr"].tobytes().hex()))
+                            tuple(case["shape"]), hashlib.sha1(rec["arr"].tobytes()).hexdigest()))
         if not rec["input_unchanged"]:
             changed += 1
         if st != "ok":
